@@ -64,6 +64,7 @@ package convert
 //@   ensures idec64(ienc64(a)) == a
 //@   ensures (ienc64(a) == ienc64(b)) == (a == b)
 //@ lemma idec64_inverse(u uint64)
+//@   property C12 C01
 //@   mode bv
 //@   ensures ienc64(idec64(u)) == u
 //@ lemma ienc32_order(a int32, b int32)
@@ -94,6 +95,7 @@ package convert
 //@   ensures len4:  len(result) == 4 && fresh(result)
 //@   ensures value: be32(result) == u
 //@ func Int64ToBytes
+//@   property C12 C01
 //@   mode bv
 //@   ensures len8:  len(result) == 8 && fresh(result)
 //@   ensures order: be64(result) == ienc64(i)
@@ -102,14 +104,17 @@ package convert
 //@   ensures len4:  len(result) == 4 && fresh(result)
 //@   ensures order: be32(result) == ienc32(i)
 //@ func Int16ToBytes
+//@   property C12 C01
 //@   mode bv
 //@   ensures len(result) == 2 && fresh(result)
 //@   ensures value: be16(result) == uint16(i)
 //@ func BytesToInt16
+//@   property C12 C01
 //@   mode bv
 //@   requires len(b) >= 2
 //@   ensures  roundtrip: result == int16(be16(b))
 //@ func BytesToInt64
+//@   property C12 C01
 //@   mode bv
 //@   requires len(b) >= 8
 //@   ensures  roundtrip: result == idec64(be64(b))
@@ -126,10 +131,12 @@ package convert
 //@   requires len(b) >= 4
 //@   ensures  result == be32(b)
 //@ func Float64ToBytes
+//@   property C12 C01
 //@   mode bv
 //@   ensures len(result) == 8 && fresh(result)
 //@   ensures value: be64(result) == bits(f)
 //@ func BytesToFloat64
+//@   property C12 C01
 //@   mode bv
 //@   requires len(b) >= 8
 //@   ensures  roundtrip: bits(result) == be64(b)
